@@ -1,4 +1,4 @@
-(* createjob_driver.ml — serves the extracted job-creation model (C05) and its spec oracle. *)
+(* export_driver.ml — serves the export / round-trip model (C17). *)
 open Sx
 open Model
 open Conv
@@ -16,7 +16,6 @@ let classify (c : n) : cclass =
   | Some cl -> cl
   | None -> if i >= 0 && i < 128 then ascii_class c else COther
 
-(* none | (b true) | (i z) | (d m e) | (s cp..) | (f cp..) | (l v..) | (m (k v)..) | (M Class (field v)..) *)
 let rec mval_of_sx (x : Sx.t) : mval =
   match x with
   | A "none" -> MNone
@@ -32,7 +31,7 @@ let rec mval_of_sx (x : Sx.t) : mval =
     MModel (coqstr cls, List.map (function L [A f; v] -> (coqstr f, mval_of_sx v) | _ -> failwith "model field") fields)
   | _ -> failwith "mval_of_sx"
 
-let vals_of_sx x = list_of_sx (function L [n; t; v] -> ((str_of_sx n, str_of_sx t), str_of_sx v) | _ -> failwith "vals") x
+let sx_of_rt (o, ok) = L [sx_of_json o; sx_of_bool ok]
 
 let handle (req : Sx.t) : Sx.t =
   match req with
@@ -40,9 +39,10 @@ let handle (req : Sx.t) : Sx.t =
     Hashtbl.reset table;
     List.iter (function L [A cp; A cl] -> Hashtbl.replace table (int_of_string cp) (class_of_name cl) | _ -> failwith "table") entries;
     L [A "table-ok"; sx_of_bool (ascii_ok classify)]
-  | L [A "create"; vals; t] -> sx_of_outcome sx_of_json (model_create classify (vals_of_sx vals) (mval_of_sx t))
-  | L [A "spec"; vals; j] -> sx_of_outcome sx_of_json (spec_create classify (vals_of_sx vals) (json_of_sx j))
-  | L [A "print_dec"; m; e] -> sx_of_str (print_dec (z_of_sx m) (z_of_sx e))
+  | L [A "rt_job_template"; j] -> sx_of_outcome sx_of_rt (rt_job_template classify (json_of_sx j))
+  | L [A "rt_env_template"; j] -> sx_of_outcome sx_of_rt (rt_env_template classify (json_of_sx j))
+  | L [A "rt_job"; v] -> sx_of_rt (rt_job classify (mval_of_sx v))
+  | L [A "parse_job_ok"; j] -> sx_of_outcome sx_of_bool (parse_job_ok classify (json_of_sx j))
   | _ -> failwith "unknown-request"
 
 let () = serve handle
